@@ -1,10 +1,9 @@
 SPECIFICATION Spec
 CONSTANTS
-  Conns = {1}
+  Conns = {1, 2}
   Bug = "none"
-  MaxUse = 2
-  OneMechanism = FALSE
-  OvFaults = {"none"}
+  MaxUse = 1
+  OneMechanism = TRUE
+  OvFaults = {"none", "close"}
 INVARIANTS TypeOK C18_NothingBeforeAuth C18_FailureClosesAndFails C18_SuccessIffRightCreds C18_RawVsFramed
-PROPERTIES C18_DialTerminates
 CHECK_DEADLOCK FALSE
